@@ -10,6 +10,30 @@ CHECKS = {
         text="Exhaustive within the bound: every (base spelling x importing directory x imported file) up to depth 2 (quick) / 3 (thorough) over a component alphabet with `.`, `..`, dotted names and names ending in ts, import-esm off and on. The property (relative, forward slashes, extension handling, resolves to exactly the dependency's file) is checked by TLC on the model AND on what the real function returned for every enumerated pair, so a change to the code is caught even when it leaves the model behind.",
         note="Trusted: TLC, the JSON bridge, Linux path semantics (Windows branch not executed). Resolution of a specifier is modelled as segment walk + `.ts`. File names end in `.ts`.",
         design_ref="DESIGN.md section 5 (C08), section 3.8"),
+    "C05": dict(
+        category="model_checking",
+        technique="TLA+ model of the textual merge (Merge.tla) and of export_and_merge under its lock (Export.tla); TLC enumerates every export order with repetitions over the shared-file types of a measured universe; each history replayed through the real TS::export*; TLC (Trace_Export.tla, Trace_Confluence.tla) judges the real files",
+        text="Every sequence (all orders, all prefixes, repetitions) of exports of up to 4/5 types into one shared file - types with doc comments, non-ASCII docs, blank doc lines, `export type` inside docs, multi-line declarations, prefix and generic names, overlapping imports - is a TLC behaviour whose quiescent states satisfy `file = canonical file of the registered names` on the model; each behaviour is replayed on the real code and TLC evaluates on the real bytes: notice, sorted unioned imports, every declaration intact exactly once in name order, and identical bytes for identical exported sets. Thread interleavings: see DESIGN.md (threads).",
+        note="Trusted: TLC, lib/textabs.py cutting text where fn merge cuts it, the harness. Universe of declaration texts is harness/rt/src/universe.rs.",
+        design_ref="DESIGN.md section 5 (C05), 3.10, 3.11"),
+    "C06": dict(
+        category="model_checking",
+        technique="TLA+ state machine of the exporter (Export.tla: registry, files, path normalisation, recursion) refined against ExportAbs.tla; TLC enumerates all call sequences over entry points x directory spellings x types; replay on the real entry points; trace adjudication by TLC",
+        text="All histories of length <=3 over {export, export_all, export_all_to} x {4-6 types incl. shared files, dependency chains, cycles, generics} x {default, absolute, ./, trailing slash, .. segments, another directory} and stale initial contents: the model satisfies `files are a function of the registry` in every state; every history is replayed against the real library in a fresh directory and TLC checks on the observed trees that nothing exported is ever lost, stale bytes do not survive, files are canonical, and equal exported sets give byte-identical trees.",
+        note="Trusted: TLC, the harness, no symlinks. Directory spellings denote the same directory lexically.",
+        design_ref="DESIGN.md section 5 (C06), 3.11"),
+    "C11": dict(
+        category="model_checking",
+        technique="Export.tla/ExportAbs.tla: Closure (reachability over the measured visit lists) and Loc (documented location rule); histories enumerated by TLC, replayed with before/after snapshots of the whole sandbox (pre-populated with unrelated files), judged by TLC",
+        text="For every replayed call TLC checks on the real before/after snapshots: an Ok call leaves every exportable type reachable from the root declared in the file at base.join(output_path()) (normalised), and the set of created/changed paths is contained in those locations and their parent directories - unrelated and stale files, other directories and `..`-escaped locations included.",
+        note="Trusted: TLC, the harness snapshots (bytes, not mtime). The attribute-form rule (default / dir/ / file) is compared with output_path() in the C03/C11 corpus check when built.",
+        design_ref="DESIGN.md section 5 (C11)"),
+    "C17": dict(
+        category="model_checking",
+        technique="Export.tla with environment steps (obstacle put/removed) and failing steps; TLC enumerates [pre call] obstacle, blocked call, removal, retry [post call] and self-failing calls; replay with real obstacles under catch_unwind; TLC judges results and trees",
+        text="Fault enumeration by the model checker: every obstacle kind (target is a directory, a parent is a regular file, the export directory is a file, path above the root, non-exportable root, dependency above the root) before every call that it blocks, with and without earlier exports, then removal and retry, then a further export. TLC checks on the real observations: the blocked call returns Err (never panics, lock never poisoned), a call fails exactly when something is in its way, nothing but its own targets changes, and after the retry the tree is the fault-free one (same exported set => same bytes).",
+        note="Trusted: TLC, the harness. Obstacles are placed only where they destroy nothing.",
+        design_ref="DESIGN.md section 5 (C17)"),
 }
 
 NOT_YET = "check not built yet (work in progress, see DESIGN.md appendix B)"
